@@ -718,6 +718,7 @@ def def_tokens(d):
                 out += ["$" + v["name"], ":", gs.ty_str(v["type"])]
                 if v["default"] is not None:
                     out += ["="] + value_tokens(v["default"])
+                out += dirs_tokens(v.get("dirs") or [])
             out.append(")")
         out += dirs_tokens(d["dirs"])
     return out + sels_tokens(d["sels"])
